@@ -35,7 +35,13 @@ except Exception:  # pragma: no cover
 FRAMES_VARIANT = int(os.environ.get("VERIF_C01_FRAMES_VARIANT", FRAMES_VARIANT))
 TEXT_FLAGS = os.environ.get("VERIF_C01_TEXT_FLAGS", TEXT_FLAGS)
 TABLE_FLAGS = os.environ.get("VERIF_C01_TABLE_FLAGS", TABLE_FLAGS)
-FLAGS = f"{FRAMES_VARIANT},{TEXT_FLAGS},{TABLE_FLAGS}"
+# the composition layer's own flag — 1 = today's code: in an expanding table a `ratio=0` column next to an active ratio column is handed
+# 0 cells (`max(0, width)`) and then one cell by the re-measure after a collapse, so the table is one cell too wide (finding
+# table-ratio-zero-column; repair: pending_fixes/C01-table-ratio-zero-column.diff).  The width algorithm is C07's model, which is
+# faithful to today's code; with 0 (repaired code) the driver answers `unmodelled` for trees holding such a table until that model
+# carries the repaired variant.
+RATIO_ZERO_COLUMN = int(os.environ.get("VERIF_C01_RATIO_ZERO_COLUMN", "1"))
+FLAGS = f"{FRAMES_VARIANT},{TEXT_FLAGS},{TABLE_FLAGS},{RATIO_ZERO_COLUMN}"
 
 
 def widths_for(rng, smin, quick, dense=12, top=200):
@@ -50,6 +56,8 @@ def widths_for(rng, smin, quick, dense=12, top=200):
 def classify(e, dom):
     if dom == "f23":
         return "progressbar-no-newline"
+    if dom == "rz":
+        return "table-ratio-zero-column"
     return None
 
 
@@ -58,7 +66,7 @@ def _job(args):
     spec, cwidth, opts, widths = args[:4]
     shared = len(args) > 4 and args[4]
     console = L.make_console(cwidth)
-    obj = L.guarded(lambda: L.build(spec)) if shared else None
+    obj = L.guarded(lambda: L.build(spec)) if shared and not L.has_styled_rule(spec) else None
     if isinstance(obj, str):
         obj = None
     cases, checks, notes = [], [], {}
@@ -157,6 +165,9 @@ def corner_specs():
         ("TABLE", {"expand": True}, [({"ratio": 1}, T("r"), T(""), [T("x")]), ({}, T("wide"), T(""), [T("a considerably wider ordinary column here")])]),
         ("TABLE", {"expand": True, "box": None, "padding": (0, 0, 0, 0)}, [({"ratio": 2}, T("r"), T(""), [T("x")]), ({"ratio": 1}, T("q"), T(""), [T("yy")]), ({}, T("wide"), T(""), [T("wide wide wide wide")])]),
         ("RULE", {"title": "styled title", "title_styled": True}),
+        ("TABLE", {"expand": True}, [({"ratio": 1}, T("a"), T(""), [T("x")]), ({"ratio": 0}, T("b"), T(""), [T("y")]),
+                                     ({}, T("c"), T(""), [T("long long long long long long long long text")])]),
+        ("TABLE", {"expand": True, "box": None}, [({"ratio": 0}, T("b"), T(""), [T("y")]), ({"ratio": 2}, T("a"), T(""), [T("x x x x x x x x x x x x")])]),
     ]
     return out
 
@@ -172,7 +183,7 @@ def run(ctx):
         for cwidth in (80, 20, (60, True, False, None), (60, False, True, "truecolor")):
             jobs.append((spec, cwidth, {}, ws if cwidth == 80 else ws[: sm + 6]))
     # ---- B: seeded random trees, depth <= 4, all options; console width != render width in a third of the cases
-    n = 3000 if quick else 30000
+    n = 2600 if quick else 27000
     for i in range(n):
         d = rng.choice([1, 2, 2, 3, 3, 4])
         spec = L.gen_tree(rng, d)
@@ -242,28 +253,33 @@ def replay(ctx, case):
 
 MANIFEST = {
     "text": "Lean 4 theorems (Props/C01.lean; no bound on nesting depth, number of children / rows / columns, text length or width) about the "
-    "executable composition model Model/Layout.lean: an inductive type of renderable trees (text | padding | panel | align | constrain | styled | "
-    "__rich__ cast | measure-less object | group | rule | bar | progress bar | table | columns | tree, every layout option) whose `render` "
-    "instantiates the oracles of the finished layers (Text.wrap C02, Text.render C05, frames C08, table algorithm C07, line shaping C13) with "
-    "itself.  `render_fits` / `rendered_lines_fit`: by structural induction over the tree, for every options and every width w at or above the "
-    "structural minimum `smin` (borders + padding + one cell, two with a double-width character, per innermost column), no line of "
-    "Console.render's Segment stream is wider than w; containers that crop (padding, panel, table, columns, tree) need nothing of their children, "
-    "the pass-through ones (group, styled, constrain, align, casts) use the induction hypothesis, text uses wrap/truncate (C02), tables use "
-    "width_fits (C07) restricted to columns free to wrap exactly as the property says; `known_progressbar_in_group_overflows` machine-checks "
-    "the one excluded built-in case (F23).  Tie: ~40k (quick) / ~600k (thorough) renderings of hand-written corner trees and seeded random "
-    "trees (depth <= 4, all options, ASCII/CJK/emoji/combining/zero-width content, newlines, tabs) compared character for character with "
-    "real Console.render (not Console.print), widths smin-2..smin+12 densely and up to 200, several console widths, objects re-rendered to "
-    "expose kept state; smin computed independently in Python and cross-checked; the property evaluated directly on rich's own output.",
-    "note": "Partial / assumed: (1) the domain `Dom` of the theorem excludes, in exposed position only: text with effective overflow='ignore' "
-    "(documented opt-out) or an explicit end other than the line feed, Constrain/Align narrower than the child's structural minimum, tables whose "
-    "columns are not free to wrap (width/min_width/no_wrap/active ratio) or whose explicit Table(width) exceeds the available width, "
-    "Columns(width=...), and a ProgressBar followed by a sibling in a group (known finding progressbar-no-newline, F23); all of these ARE in the "
-    "correspondence.  (2) Outside the model (driver answers `unmodelled`, counted): tables without columns, Columns(width=...), panel/rule "
-    "titles that are not one-line simple text or wider than console.width, ASCII-only / legacy-Windows consoles for tables, styles (only text "
-    "and segmentation are modelled), str renderables (markup/emoji/highlighter).  (3) `Text.Inv` of the wrapped-and-joined text is checked at "
-    "run time by the model instead of being proved preserved by every overflow/justify combination of wrap.  (4) smin reads Columns as one "
-    "column per item: `Columns([Text('')]*5)` at width 4 renders 5 blank cells (below that minimum, hence outside the claim).  "
-    "Trusted: Lean kernel, axioms propext/Classical.choice/Quot.sound, translator, correspondence harness; variant flags follow "
-    "props/c02.py, c07.py, c08.py.",
+    "executable composition model Model/Layout.lean: an inductive type of renderable trees (text | str | padding | panel | align | constrain | "
+    "styled | __rich__ cast | measure-less object | group | rule | bar | progress bar | table | columns | tree, every layout option) whose "
+    "`render` instantiates the oracles of the finished layers (Text.wrap C02, Text.render C05, frames C08, table algorithm C07, line shaping "
+    "C13) with itself.  `render_fits` / `rendered_lines_fit`: by structural induction over the tree, for every options and every width w at or "
+    "above the structural minimum `smin` (borders + padding + one cell, two with a double-width character, per innermost column), no line of "
+    "Console.render's Segment stream is wider than w — for EVERY code variant of the lower layers except the as-found `leading` (in particular "
+    "for today's fully repaired code): containers that crop (padding, panel, table, columns, tree) need nothing of their children, the "
+    "pass-through ones (group, styled, constrain, align, casts) use the induction hypothesis, text uses wrap/truncate (C02), tables — any "
+    "number of columns, ratio columns included — use the width bound of `_calculate_column_widths` for columns free to wrap.  Every exclusion "
+    "of the domain `Dom` carries a machine-checked witness that the bound fails there (`excluded_*`, `known_progressbar_in_group_overflows`, "
+    "`finding_ratio_zero_column_overflows`) or is marked NOT DISCHARGED.  Tie: ~43k (quick) / ~600k (thorough) renderings of corner trees and "
+    "seeded random trees (depth <= 4, all options, ASCII/CJK/emoji/combining/zero-width content, newlines, tabs, str renderables with markup, "
+    "styled titles) compared character for character with real Console.render (not Console.print), widths smin-2..smin+12 densely and up to "
+    "200, console widths 12..200, ASCII-only / legacy-Windows / colour consoles, objects re-rendered to expose kept state; smin computed "
+    "independently in Python and cross-checked; the property evaluated directly on rich's own output on a domain WIDER than the theorem's "
+    "(ratio tables, Constrain/Align at any width, Columns(width>=1), Table(width)).",
+    "note": "Findings: progressbar-no-newline (F23, known) and table-ratio-zero-column (new: Table(expand=True) with columns ratio=1, ratio=0 and "
+    "a wide ordinary column is one cell too wide at every width where the wide column wraps; repair pending_fixes/C01-table-ratio-zero-column.diff, "
+    "430 baseline tests pass, flag RATIO_ZERO_COLUMN).  Excluded from the theorem with witness: text overflow='ignore' / explicit end, a group "
+    "member that does not end its line, table columns with width / min_width / no_wrap, ratio=0 column in an expanding table, "
+    "Columns(width=0).  NOT DISCHARGED (no counterexample in any run, evaluated directly): Constrain/Align narrower than the child's structural "
+    "minimum, Table(width) below one cell per column, Columns(width>=1), a Rule under overflow='ignore'.  Outside the model (driver answers "
+    "`unmodelled`, counted): panel/rule titles that are not one-line simple text or are wider than console.width (only when rendering wider "
+    "than the console), a __rich__ that returns another __rich__ object, styles (only text and segmentation are modelled; a str is modelled as "
+    "the Text render_str makes of it).  `Text.Inv` of the wrapped-and-joined text is checked at run time by the model instead of being proved "
+    "preserved by every overflow/justify combination of wrap.  smin reads Columns as one column per item.  Observation (C08's ground): a Rule "
+    "truncates a Text title object in place, so re-rendering the same Rule wider keeps the narrow title.  Trusted: Lean kernel, axioms "
+    "propext/Classical.choice/Quot.sound, translator, correspondence harness; variant flags follow props/c02.py, c07.py, c08.py.",
     "design_ref": "DESIGN.md section 7, C01/C07/C08/C09",
 }
